@@ -3,6 +3,7 @@ from typing import List, Type
 from sqlalchemy.inspection import inspect
 from sqlalchemy.orm.attributes import InstrumentedAttribute, QueryableAttribute
 from sqlalchemy.orm.decl_api import DeclarativeMeta
+from sqlalchemy.orm.interfaces import MANYTOONE
 from sqlalchemy.orm.relationships import RelationshipProperty
 from sqlalchemy.sql.expression import (
     BinaryExpression,
@@ -118,7 +119,13 @@ class AstToSqlAlchemyOrmVisitor(common._CommonVisitors, visitor.NodeVisitor):
         """
         try:
             prop_inspect = inspect(elem).property
-            if isinstance(prop_inspect, RelationshipProperty):
+            # Only a many-to-one keeps its foreign key on this side; the key of
+            # a one-to-many or of the reverse side of a one-to-one is a column
+            # of the related table, which is not part of the query.
+            if (
+                isinstance(prop_inspect, RelationshipProperty)
+                and prop_inspect.direction is MANYTOONE
+            ):
                 foreign_key = prop_inspect._calculated_foreign_keys
                 if len(foreign_key) == 1:
                     return next(iter(foreign_key))
